@@ -34,9 +34,10 @@ RULE = ("case = gens.system_spec(N 1..4) + optional mode + temperature code (0 |
         "+ condition + requesting context. Non-trivial: T > 0 with >= 2 distinct excited energies, or T within a factor "
         "3 of the underflow edge.")
 ASSUMPTIONS = ["k_B of the library (0.69503476 cm^-1/K) vs CODATA: populations compared to 1e-6 absolute"]
-BUDGET = {"quick": (1500, 80), "thorough": (4000, 700)}
+BUDGET = {"quick": (1500, 110), "thorough": (4000, 700)}
 
-CONDS = ["thermal", "tes_weak", "tes_strong", "impulsive", "thermal_rdm", "tes_strong_rh"]
+CONDS = ["thermal", "tes_weak", "tes_strong", "impulsive", "thermal_rdm", "tes_strong_rh", "tes_weak_rh"]
+WEAK_CUT = 60.0        # 1/cm: couplings below this are left out of the supplied (effective) Hamiltonian
 CTXS = ["outside", "eigen", "other", "units-1/cm", "units-eV"]
 
 
@@ -69,12 +70,58 @@ def _case(draw):
     # temperature, not of the aggregate object's history)
     uses = draw(st.lists(st.sampled_from(["diagonalize", "stR", "stR_td", "stR_sec", "stF", "cRF", "redfield_rates"]),
                          max_size=2))
+    # a second mode on the second molecule (ground-state vibrational levels of two molecules interleave in energy); an
+    # electronic aggregate built with its two-exciton band
+    mode2 = None
+    if mode is not None and n >= 2 and cond == "thermal" and draw(st.booleans()):
+        mode2 = {"w": draw(st.integers(60, 300)), "hr": draw(st.integers(1, 10)) / 10.0, "n0": draw(st.integers(2, 3)), "n1": 2}
+    mult = 2 if (mode is None and n >= 2 and cond in ("tes_strong", "tes_weak") and draw(st.sampled_from([False, False, True]))) else 1
+    if mult == 2:
+        uses = [u for u in uses if u == "diagonalize"]
     return {"spec": spec, "tcode": tcode, "mode": mode, "cond": cond, "ctx": draw(st.sampled_from(CTXS)),
-            "other": other, "uses": uses}
+            "other": other, "uses": uses, "mode2": mode2, "mult": mult}
 
 
 def strategy(tier):
     return _case()
+
+
+def grid(tier):
+    """Deterministic requests on one fixed trimer: every condition x (outside, eigenbasis, units) at two temperatures,
+    with the variants that matter (two-exciton band built, modes on two molecules, aggregate diagonalised before)."""
+    spec = {"E": [12000, 12250, 12130], "J": [[0, 120, 30], [120, 0, -90], [30, -90, 0]],
+            "d": [[1.0, 0.0, 0.0], [0.0, 1.0, 0.0], [0.6, 0.0, 0.8]], "T": 250,
+            "bath": [{"ftype": "OverdampedBrownian", "reorg": 40 + 25 * i, "cortime": 40 + 5 * i, "matsubara": 10}
+                     for i in range(3)],
+            "time": [0.0, 40, 1.0]}
+    other = [[((i + 2) * (j + 1)) % 7 - 3 for j in range(4)] for i in range(4)]
+    other = [[other[min(i, j)][max(i, j)] for j in range(4)] for i in range(4)]
+    m1 = {"w": 300, "hr": 0.4, "n0": 2, "n1": 2}
+    m2 = {"w": 170, "hr": 0.3, "n0": 3, "n1": 2}
+    # exactly T = 0: the lowest relaxed site (site energy minus reorganisation energy) is not the lowest bare site
+    spec0 = dict(spec, E=[12000, 12050, 12300], bath=[dict(spec["bath"][0], reorg=20), dict(spec["bath"][1], reorg=120),
+                                                       dict(spec["bath"][2], reorg=40)])
+    for cond in ("tes_strong", "tes_weak", "tes_strong_rh", "thermal"):
+        for cx in ("outside", "units-1/cm"):
+            yield {"spec": spec0, "tcode": ["zero"], "mode": None, "cond": cond, "ctx": cx, "other": other,
+                   "uses": [], "mode2": None, "mult": 1}
+    for tcode in (["pow", 25], ["pow", 19]):
+        for cx in ("outside", "eigen", "units-1/cm"):
+            for cond in ("thermal", "tes_weak", "tes_strong", "tes_strong_rh", "tes_weak_rh", "impulsive"):
+                for mult in ((1, 2) if cond in ("tes_weak", "tes_strong") else (1,)):
+                    for uses in ([], ["diagonalize"]):
+                        yield {"spec": spec, "tcode": tcode, "mode": None, "cond": cond, "ctx": cx, "other": other,
+                               "uses": uses, "mode2": None, "mult": mult}
+            # tensors built from the aggregate before the request
+            for u in ("stR", "stR_td", "stR_sec", "stF", "cRF", "redfield_rates"):
+                for cond in ("tes_weak", "tes_strong"):
+                    yield {"spec": spec, "tcode": tcode, "mode": None, "cond": cond, "ctx": cx, "other": other,
+                           "uses": [u], "mode2": None, "mult": 1}
+            for uses in ([], ["diagonalize"]):
+                yield {"spec": spec, "tcode": tcode, "mode": m1, "cond": "thermal", "ctx": cx, "other": other,
+                       "uses": uses, "mode2": m2, "mult": 1}
+                yield {"spec": spec, "tcode": tcode, "mode": m1, "cond": "tes_strong", "ctx": "outside", "other": other,
+                       "uses": uses, "mode2": None, "mult": 1}
 
 
 def _temperature(case):
@@ -100,7 +147,13 @@ def _make(qr, case):
             mode.set_nmax(0, md["n0"]); mode.set_nmax(1, md["n1"]); mode.set_HR(1, md["hr"])
             if md.get("shift0"):
                 mode.set_shift(0, float(md["shift0"]))
-    agg.build()
+    if case.get("mode2"):
+        md = case["mode2"]
+        with qr.energy_units("1/cm"):
+            mode = qr.Mode(float(md["w"]))
+            agg.monomers[1].add_Mode(mode)
+            mode.set_nmax(0, md["n0"]); mode.set_nmax(1, md["n1"]); mode.set_HR(1, md["hr"])
+    agg.build(mult=case.get("mult", 1))
     t0, nt, dt = spec["time"]
     for u in case.get("uses", []):
         if case["mode"] and u in ("stF", "cRF"):
@@ -120,7 +173,17 @@ def _make(qr, case):
     return agg
 
 
-def _request(qr, agg, cond, T):
+def _effective_hamiltonian(qr, case):
+    """the aggregate's Hamiltonian with the weak couplings left out, as a separate object (made outside any context)"""
+    with qr.energy_units("int"):
+        Hs = numpy.array(_make(qr, dict(case, uses=[])).get_Hamiltonian().data, dtype=float)
+    off = ~numpy.eye(Hs.shape[0], dtype=bool)
+    Hs[off & (numpy.abs(Hs) < WEAK_CUT * orc.CM2INT)] = 0.0
+    with qr.energy_units("int"):
+        return qr.Hamiltonian(data=Hs)
+
+
+def _request(qr, agg, cond, T, heff=None):
     if cond == "thermal":
         return agg.get_DensityMatrix(condition_type="thermal", temperature=T)
     if cond == "tes_weak":
@@ -134,6 +197,11 @@ def _request(qr, agg, cond, T):
         # reorganisation energies")
         return agg.get_DensityMatrix(condition_type="thermal_excited_state", relaxation_theory_limit="strong_coupling",
                                      temperature=T, relaxation_hamiltonian=agg.get_Hamiltonian())
+    if cond == "tes_weak_rh":
+        # the caller supplies an effective Hamiltonian (weak couplings left out, as in combined theories): the canonical
+        # state in *its* eigenbasis
+        return agg.get_DensityMatrix(condition_type="thermal_excited_state", relaxation_theory_limit="weak_coupling",
+                                     temperature=T, relaxation_hamiltonian=heff)
     if cond == "impulsive":
         return agg.get_DensityMatrix(condition_type="impulsive_excitation", temperature=T)
     raise ValueError(cond)
@@ -171,7 +239,9 @@ def check_case(case, ctx):
     ok, agg0 = guarded(ctx, "build", lambda: _make(qr, case))
     if not ok:
         return
-    ok, ref = guarded(ctx, "request", lambda: numpy.array(_request(qr, agg0, cond, T).data),
+    ok, ref = guarded(ctx, "request", lambda: numpy.array(_request(qr, agg0, cond, T,
+                                                                  heff=_effective_hamiltonian(qr, case)
+                                                                  if cond == "tes_weak_rh" else None).data),
                       cond + "/outside" + ("/vibronic" if case["mode"] else ""), T=T)
     if not ok:
         return
@@ -189,8 +259,43 @@ def check_case(case, ctx):
             _boltz(ctx, numpy.real(numpy.diag(ref)), E, T, kT, "thermal/site-basis")
             ctx.bound("off-diagonal-zero", float(numpy.max(numpy.abs(ref - numpy.diag(numpy.diag(ref))))), 1e-12,
                       where="thermal")
+        elif cond == "thermal" and not electronic:
+            # vibronic aggregate: Boltzmann populations of all levels in the site basis (at optical energies only the
+            # uncoupled vibrational levels of the electronic ground state count); energies from an aggregate object
+            # without history
+            with qr.energy_units("int"):
+                Hd = numpy.real(numpy.diag(numpy.array(_make(qr, dict(case, uses=[])).get_Hamiltonian().data)))
+            pops = numpy.real(numpy.diag(ref))
+            # (the thermal state of the whole system: all levels, weighted by their site-basis energies)
+            _boltz(ctx, pops, Hd, T, kT, "thermal/vibronic-site-basis")
+            if case.get("mode2"):
+                ctx.label("thermal:modes-on-two-molecules")
+        elif cond == "tes_weak_rh":
+            with qr.energy_units("int"):
+                Hs = numpy.array(_make(qr, dict(case, uses=[])).get_Hamiltonian().data, dtype=float)
+            off = ~numpy.eye(Hs.shape[0], dtype=bool)
+            changed = bool(numpy.any(off & (numpy.abs(Hs) < WEAK_CUT * orc.CM2INT) & (Hs != 0.0)))
+            Hs[off & (numpy.abs(Hs) < WEAK_CUT * orc.CM2INT)] = 0.0
+            ev, S = numpy.linalg.eigh(Hs)
+            rho_ex = S.T @ ref @ S
+            E = ev[nb0:]
+            distinct = len(set(numpy.round(E, 9))) >= 2
+            lowest_degenerate = len(E) > 1 and float(numpy.sort(E)[1] - numpy.sort(E)[0]) < 1e-9
+            pops = numpy.real(numpy.diag(rho_ex))
+            ctx.label("weak/supplied-hamiltonian:" + ("differs" if changed else "same-as-own"))
+            ctx.bound("ground-state-empty", float(numpy.max(numpy.abs(pops[:nb0]))), 1e-10, where=tag)
+            _boltz(ctx, pops[nb0:], E, T, kT, "weak/eigenbasis-of-supplied-hamiltonian")
+            gaps = numpy.diff(E)
+            if len(gaps) == 0 or numpy.min(gaps) > 1e-6:
+                ctx.bound("off-diagonal-zero", float(numpy.max(numpy.abs(rho_ex - numpy.diag(numpy.diag(rho_ex))))), 1e-9,
+                          where="weak/eigenbasis-of-supplied-hamiltonian")
         elif cond == "tes_strong" and electronic:
             E = numpy.array([(spec["E"][i] - spec["bath"][i]["reorg"]) * orc.CM2INT for i in range(n)])
+            if case.get("mult", 1) == 2:
+                # states of the two-exciton band follow in the list of excited states (their share is below 1e-20)
+                E = numpy.concatenate([E, [(spec["E"][i] + spec["E"][j]) * orc.CM2INT for i in range(n)
+                                           for j in range(i + 1, n)]])
+                ctx.label("strong:two-exciton-band-built")
             distinct = len(set(numpy.round(E, 9))) >= 2
             lowest_degenerate = len(E) > 1 and float(numpy.sort(numpy.asarray(E, dtype=float))[1]
                                                    - numpy.sort(numpy.asarray(E, dtype=float))[0]) < 1e-9
@@ -246,10 +351,11 @@ def check_case(case, ctx):
     if where_ctx != "outside":
         def inside():
             agg = _make(qr, case)
+            heff = _effective_hamiltonian(qr, case) if cond == "tes_weak_rh" else None
             if where_ctx.startswith("units-"):
                 # requested while other energy units are current: the same state
                 with qr.energy_units(where_ctx[6:]):
-                    rho = _request(qr, agg, cond, T)
+                    rho = _request(qr, agg, cond, T, heff=heff)
                 return numpy.array(rho.data)
             if where_ctx == "eigen":
                 op = agg.get_Hamiltonian()
@@ -261,7 +367,7 @@ def check_case(case, ctx):
                         M[i, j] = case["other"][i % k][j % k] if i <= j else case["other"][j % k][i % k]
                 op = SelfAdjointOperator(data=M)
             with qr.eigenbasis_of(op):
-                rho = _request(qr, agg, cond, T)
+                rho = _request(qr, agg, cond, T, heff=heff)
             return numpy.array(rho.data)          # read after the context is closed
         ok, got = guarded(ctx, "request", inside, tag + ("/vibronic" if case["mode"] else ""), T=T)
         if ok and numpy.all(numpy.isfinite(ref)):
@@ -274,7 +380,13 @@ def check_case(case, ctx):
                 if where_ctx.startswith("units-"):
                     if not (T == 0.0 and lowest_degenerate):
                         ctx.close("same-state-in-any-units-context", got, ref, rtol=0, atol=1e-9, where=cond, T=T)
-                elif cond in ("tes_weak", "tes_strong") and not (T == 0.0 and lowest_degenerate):
+                elif cond == "thermal" and where_ctx == "eigen" and T > 0 and \
+                        math.exp(-min(spec["E"]) * orc.CM2INT / kT) > 1e-13:
+                    # thermally populated excited states: their populations follow the diagonal of the Hamiltonian in
+                    # the basis of the request (site energies outside, exciton energies in the eigenbasis) - the two
+                    # requests then differ by construction, nothing to compare
+                    ctx.label("thermal/eigen:excited-states-populated-not-compared")
+                elif cond in ("tes_weak", "tes_strong", "thermal", "tes_weak_rh") and not (T == 0.0 and lowest_degenerate):
                     ctx.close("same-state-inside-and-outside", got, ref, rtol=0, atol=1e-9, where=tag, T=T)
 
 
